@@ -8,6 +8,7 @@ import Driver.C08
 import Driver.C06
 import Driver.C18
 import Driver.C02
+import Driver.C03
 import Driver.C04
 import Driver.C07
 import Driver.C09
@@ -26,6 +27,7 @@ def dispatch (line : String) : String :=
   | "C06" :: r => Driver.C06.handle r
   | "C18" :: r => Driver.C18.handle r
   | "C02" :: r => Driver.C02.handle r
+  | "C03" :: r => Driver.C03.handle r
   | "C04" :: r => Driver.C04.handle r
   | "C07" :: r => Driver.C07.handle r
   | "C09" :: r => Driver.C09.handle r
